@@ -27,8 +27,8 @@ RULE = ("compositions (1-4 tracks, velocities 1-127, values with whole tick coun
 
 def shards(tier, seed):
     out = []
-    n = 800 if tier == "quick" else 40000
-    parts = 6 if tier == "quick" else 16
+    n = 2400 if tier == "quick" else 40000
+    parts = 8 if tier == "quick" else 16
     for i in range(parts):
         out.append({"name": "roundtrip-%d" % i, "kind": "rt", "n": n // parts, "weight": 8})
     out.append({"name": "tempo-and-keys", "kind": "tempo", "weight": 3, "extra": 50 if tier == "quick" else 1500})
